@@ -7,7 +7,7 @@ from itertools import product
 import numpy as np
 import tlz as toolz
 
-from dask import is_dask_collection
+from dask import config, is_dask_collection
 from dask._task_spec import Task, TaskRef
 from dask_array._expr import ArrayExpr, unify_chunks_expr
 from dask_array._utils import compute_meta
@@ -92,9 +92,21 @@ class Blockwise(ArrayExpr):
             return meta
 
     @cached_property
+    def _unify_config(self):
+        # Chunk unification reads its policy and limit from the config.  The
+        # layout is derived once (``chunks``) and again when lowering rechunks the
+        # operands to it; remember the settings so both derive the same layout
+        # even if the config changed in between.
+        return {
+            "array.unify-chunks-policy": config.get("array.unify-chunks-policy", "auto"),
+            "array.unify-chunks-limit": config.get("array.unify-chunks-limit", None),
+        }
+
+    @cached_property
     def chunks(self):
         if self.align_arrays:
-            chunkss, arrays, _ = unify_chunks_expr(*self.args)
+            with config.set(self._unify_config):
+                chunkss, arrays, _ = unify_chunks_expr(*self.args)
         else:
             arginds = [(a, i) for (a, i) in toolz.partition(2, self.args) if i is not None]
             chunkss = {}
@@ -495,7 +507,9 @@ class Blockwise(ArrayExpr):
 
     def _lower(self):
         if self.align_arrays:
-            _, arrays, changed = unify_chunks_expr(*self.args)
+            self.chunks  # fixes _unify_config
+            with config.set(self._unify_config):
+                _, arrays, changed = unify_chunks_expr(*self.args)
             if changed:
                 args = []
                 for idx, arr in zip(self.args[1::2], arrays):
@@ -1010,7 +1024,9 @@ class Elemwise(Blockwise):
         # Elemwise stores just arrays in operands, but args generates (array, indices) pairs.
         # After unifying chunks, we only pass the unified arrays (not indices) to the constructor.
         if self.align_arrays:
-            _, arrays, changed = unify_chunks_expr(*self.args)
+            self.chunks  # fixes _unify_config
+            with config.set(self._unify_config):
+                _, arrays, changed = unify_chunks_expr(*self.args)
             if changed:
                 # Only pass the unified arrays, not the indices
                 # When where is an array, the last two arrays are where and out
